@@ -16,7 +16,7 @@ git -C /repo worktree add -q --detach $wt main || exit 2
 cd $wt
 demo_cmd=$(python3 -c "import json;print(json.load(open('$src/meta.json'))['demo_cmd'])")
 # normalise the demo command: run it in this worktree with our target dir
-demo_cmd=$(echo "$demo_cmd" | sed -E "s#CARGO_TARGET_DIR=[^ ]+ ##g; s#cd [^ ;&]+ *(&&|;) *##g")
+demo_cmd=$(echo "$demo_cmd" | sed -E "s#CARGO_TARGET_DIR=[^ ]+ ##g; s#cd [^ ;&]+ *(&&|;) *##g; s#  +\\(.*\$##")
 echo "demo_cmd: $demo_cmd" | tee -a $log
 git apply $src/demo.diff || { echo "demo.diff does not apply" | tee -a $log; exit 2; }
 echo "== 1. demo on unchanged tree" | tee -a $log
